@@ -228,6 +228,40 @@ mod proofs {
         std::mem::forget(dec); std::mem::forget(ctx);
     }
 
+    // @harness id=C07 tier=quick unwind=10 timeout=2400 fs=4096
+    // @desc invariant_noise_budget of a ciphertext BELOW the first level equals the definition evaluated with the modulus of the ciphertext's OWN level (bit count of q_level, not of the first level's modulus), for every ciphertext at that level
+    // @bounds BFV N=2, chain {97,113,193}: key level 3 primes, first data level {97,113}, ciphertext at the last level {97}; t=17; all ciphertext residues; secret key s = 1 - X
+    // @funcs Decryptor::invariant_noise_budget, Decryptor::dot_product_ct_sk_array, poly_infty_norm, RNSBase::compose_array, half_round_up_uint, get_significant_bit_count_uint
+    // @stubs HeContext::get_context_data -> linear search over the literal chain; alloc::sync::Arc::drop_slow -> no-op
+    #[kani::proof]
+    #[kani::stub(crate::context::HeContext::get_context_data, crate::context::verif_v::get_context_data_stub)]
+    #[kani::stub(alloc::sync::Arc::drop_slow, crate::verif_v::arc_drop_slow_noop)]
+    fn c07_noise_budget_at_lower_level() {
+        let ctx = lits::ctx_bfv_n2();
+        let last = *ctx.last_parms_id();
+        let q = 97u64; let t = 17u64;
+        let qs = [97u64, 113, 193];
+        let mut sk = [0u64; 6];
+        { let kcd = ctx.key_context_data().unwrap(); let tabs = kcd.small_ntt_tables();
+          let mut m = 0; while m < 3 { let mut s = [1u64, qs[m] - 1]; tabs[m].ntt_negacyclic_harvey(&mut s); sk[2 * m] = s[0]; sk[2 * m + 1] = s[1]; m += 1; }
+          std::mem::forget(kcd); }
+        let dec = mk_decryptor(ctx.clone(), sk.to_vec());
+        let c: [u8; 4] = kani::any(); kani::assume(c[0] < 97 && c[1] < 97 && c[2] < 97 && c[3] < 97);
+        let cv = [c[0] as u64, c[1] as u64, c[2] as u64, c[3] as u64];
+        let ct = mk_ciphertext(2, 1, 2, cv.to_vec(), last, 1.0, false, 1);
+        let b = dec.invariant_noise_budget(&ct);
+        let ph0 = (cv[0] + cv[2] + cv[3]) % q;                       // (c1_0 + c1_1 X)(1 - X) = (c1_0 + c1_1) + (c1_1 - c1_0) X
+        let ph1 = (cv[1] + cv[3] + q - cv[2]) % q;
+        let cen = |x: u64| { let y = (t * x) % q; if y >= (q + 1) / 2 { q - y } else { y } };
+        let norm = if cen(ph0) > cen(ph1) { cen(ph0) } else { cen(ph1) };
+        let bits = |x: u64| (64 - x.leading_zeros()) as isize;
+        let e = bits(q) - bits(norm) - 1;
+        kani::cover!(e > 3);
+        kani::cover!(e == 0);
+        assert!(b as isize == if e < 0 { 0 } else { e });
+        std::mem::forget(dec); std::mem::forget(ctx);
+    }
+
     // @harness id=C17 tier=deep unwind=10 timeout=3000 fs=4096
     // @desc the lazily grown secret-key-power cache of a shared Decryptor never shrinks and never changes results: a size-2 decryption gives the same plaintext before and after a size-3 decryption grew the cache, and the cache keeps its larger length (the sequential history small; large; small on one shared object)
     // @bounds BFV N=2, q={97}, t=3; all ciphertext residues; secret key s = 1 - X (concrete); one sequential history. Real thread interleavings are outside Kani's model (no threads): only a sequential history is decided here
